@@ -54,3 +54,19 @@ PROPS = {
         "explanation": "error counter as a map (theorems: Add/Clear touch exactly their key; threshold decision exact) + random op sequences against internal/errorcounter",
     },
 }
+
+for _pid, _expl in {
+    "C01": "every single fault position (error before/after, lease loss, crash) on the fault-free run of ten workflow programs, random multi-fault runs, recovery rounds; final records compared with the fault-free model run",
+    "C04": "cursor rewinds to every position, duplicated events, for every status consumer; version gate observed per delivery",
+    "C05": "relay cycles under every fault position among list/new sender/send/close/delete; interleaved writes; outbox limit 1",
+    "C07": "every consumer kind x every failure position inside one event's handling; consume lag; back-off",
+    "C08": "control operations (API, web UI, from step functions, auto-pause) at every point of a run's progress",
+    "C09": "trigger histories on three foreign IDs interleaved with progress, pause, cancel, completion, deletion of current and older runs",
+    "C12": "clock before/at/after expiry x progress/cancel/re-trigger/pause-resume; single faults in inserter and poller",
+    "C14": "histories with pauses, resumes, cancels, completions, deletions; hook failures and crashes in the hook consumers",
+    "C15": "deletion requests at every point of generated histories; custom delete succeeding / failing / absent; crashes in the delete consumer",
+}.items():
+    PROPS[_pid] = {"families": ["engine"], "assumptions": ENGINE_ASSUME, "explanation": _expl}
+for _pid in ("C02", "C03", "C06", "C13"):
+    PROPS[_pid]["families"] = PROPS[_pid]["families"] + ["engine"]
+    PROPS[_pid]["assumptions"] = PROPS[_pid]["assumptions"] + ENGINE_ASSUME
